@@ -154,6 +154,7 @@ def _observe(el, net):
     from gcmpy.names.network_names import NetworkNames
     G = net.G
     nodes = []
+    bad_types = []
     for v in sorted(G.nodes()):
         a = G.nodes[v]
         nodes.append([v, [list(a[NetworkNames.JOINT_DEGREE])] if NetworkNames.JOINT_DEGREE in a else []])
@@ -162,20 +163,28 @@ def _observe(el, net):
         a = G.edges[u, v]
         attr = []
         if NetworkNames.TOPOLOGY in a or NetworkNames.MOTIF_IDS in a:
-            attr = [int(a[NetworkNames.TOPOLOGY][1:]) if NetworkNames.TOPOLOGY in a else -1,
-                    a.get(NetworkNames.MOTIF_IDS, -1)]
+            nm = a.get(NetworkNames.TOPOLOGY, None)
+            mid = a.get(NetworkNames.MOTIF_IDS, -1)
+            # the attributes must be the very name (a str "t<k>") and motif id (an int) of the row: other types are
+            # recorded as the impossible codes -3 / -2, which no row carries, so the verified checker rejects them
+            nm_code = -1 if nm is None else (int(nm[1:]) if isinstance(nm, str) and nm[:1] == "t" and nm[1:].isdigit() else -3)
+            mid_code = mid if (isinstance(mid, int) and not isinstance(mid, bool)) else -2
+            if nm_code == -3 or mid_code == -2:
+                bad_types.append([[min(u, v), max(u, v)], repr(nm), repr(mid)])
+            attr = [nm_code, mid_code]
         edges.append([[min(u, v), max(u, v)], attr])
     edges.sort()
     try:
         back = NetworkToEdgeList.convert(net)
         cols = [[list(j) for j in back.joint_degrees], [list(e) for e in back.edge_list],
-                [int(t[1:]) for t in back.topologies], list(back.motif_id)]
+                [int(t[1:]) if isinstance(t, str) and t[:1] == "t" and t[1:].isdigit() else 4001 for t in back.topologies],
+                [i if (isinstance(i, int) and not isinstance(i, bool) and 0 <= i < 4000) else 4002 for i in back.motif_id]]
         rows = sorted([[min(e), max(e)], n, i] for e, n, i in zip(cols[1], cols[2], cols[3]))
         backobs = {"ok": [cols[0], rows], "cols": cols,
                    "parallel": len(cols[1]) == len(cols[2]) == len(cols[3])}
     except Exception as e:  # noqa: BLE001
         backobs = {"exc": type(e).__name__}
-    return {"net": [nodes, edges], "back": backobs}
+    return {"net": [nodes, edges], "back": backobs, "bad_types": bad_types[:3]}
 
 
 def impl(case):
@@ -282,6 +291,8 @@ def check_calls(case, impl_obs):
 
 
 def _verdict1(obs, raw, what):
+    if obs.get("bad_types"):
+        return what + f"an edge carries an attribute of the wrong type (not the row's name / integer motif id): {obs['bad_types'][0]}"
     ok_net, ok_rt = raw
     if not ok_net:
         return what + "check_net: network does not satisfy Spec_net (nodes / annotations / edges / once-attributes)"
